@@ -375,6 +375,59 @@ fn fse_coq(_cx: &mut Cx, _cfg: &FseConfig, _data: &[u8], _bytes: &[u8], _cj: &Va
     let _ = FseTable::new;
 }
 
+/// Search for a payload that drives FseEncoder into a state on which FseTable::mul_hi (32-bit limbs, u64
+/// accumulators) overflows: a symbol with one slot has rcp_freq = 2^64 - 1, and for a state x = hi * 2^32 + lo
+/// with 2^32 * lo + (2^32 - 1) * hi - 1 >= 2^64 the middle term does not fit a u64.  The encoder starts from
+/// state 1 and never flushes below 2^36, so the tail of the payload is obtained by *decoding* such a state
+/// down to 1 with the real table.  Returns payloads (filler ++ [z] ++ tail).
+pub fn fse_mulhi_witnesses(max: usize) -> Vec<Vec<u8>> {
+    let mut found = vec![];
+    for split in [201usize, 180, 220, 150, 240, 100] {
+        for reps in [160usize, 200, 120, 300] {
+            let mut counts = [0u32; 256];
+            for s in 0..256usize { counts[s] = if s < split { reps as u32 } else { 1 }; }
+            let table = match FseTable::new(&counts, &FseConfig::default()) { Ok(t) => t, Err(_) => continue };
+            let f: Vec<u64> = (0..256).map(|s| table.dec_symbols[s].freq as u64).collect();
+            let st: Vec<u64> = (0..256).map(|s| table.dec_symbols[s].start as u64).collect();
+            let ones: Vec<usize> = (split..256).filter(|&s| f[s] == 1).collect();
+            if ones.is_empty() { continue; }
+            for hi in 1u64..16 {
+                for lo in ((1u64 << 32) - hi + 1)..(1u64 << 32) {
+                    let mut x = (hi << 32) | lo;
+                    let mut tail: Vec<u8> = vec![];
+                    for _ in 0..12 {
+                        let slot = (x & 4095) as usize;
+                        let s = table.alias_table[slot] as usize;
+                        if f[s] == 0 { break; }
+                        let nx = f[s] * (x >> 12) + slot as u64;
+                        if nx < st[s] { break; }
+                        let nx = nx - st[s];
+                        tail.push(s as u8);
+                        if nx == x { break; }
+                        x = nx;
+                        if x <= 1 { break; }
+                    }
+                    if x != 1 { continue; }
+                    // build the payload: every symbol as often as counted, the tail last, one single-slot symbol before it
+                    let mut left = counts;
+                    let mut ok = true;
+                    for &t in &tail { if left[t as usize] == 0 { ok = false; break; } left[t as usize] -= 1; }
+                    if !ok { continue; }
+                    let z = match ones.iter().find(|&&s| left[s] > 0) { Some(&z) => z, None => continue };
+                    left[z] -= 1;
+                    let mut d: Vec<u8> = vec![];
+                    for s in 0..256usize { for _ in 0..left[s] { d.push(s as u8); } }
+                    d.push(z as u8);
+                    d.extend_from_slice(&tail);
+                    found.push(d);
+                    if found.len() >= max { return found; }
+                }
+            }
+        }
+    }
+    found
+}
+
 // ---------------------------------------------------------------------------------------------
 // LZ dictionary coders
 // ---------------------------------------------------------------------------------------------
@@ -483,6 +536,11 @@ fn run_one(cx: &mut Cx, c: &Value) -> bool {
         "lz" => lz_case(cx, c["which"].as_u64().unwrap_or(0), c["min"].as_u64().unwrap_or(3) as usize, c["max"].as_u64().unwrap_or(258) as usize,
                         c["window"].as_u64().unwrap_or(32768) as usize, &data, &bytes_of(&c["train"]), &tag, true),
         "parallel" => parallel_case(cx, &data, &tag),
+        "fse_mulhi_search" => {
+            let ws = fse_mulhi_witnesses(3);
+            cx.sum.notes.push(format!("fse_mulhi_search: {} payloads", ws.len()));
+            for w in ws { fse_case(cx, "default", 0, &w, None, None, "mulhi_witness", false); }
+        }
         _ => return false,
     }
     true
